@@ -1,7 +1,7 @@
 import SockModel.Drive.Uri
 /-! Driver for C11 (Address construction is total): the shared URI driver in totality mode -
 correspondence with `Model/Uri.lean` + "a value or a std::exception, never a crash / signal /
-hang" on the observations. -/
+hang" on the observations = `Uri.specStep .totality` of `Spec/Uri.lean` (the driver holds no property clause). -/
 namespace SockModel.Drive.C11
 open SockModel.Drive
 
